@@ -2024,3 +2024,18 @@ package otto
 //@   invariant@1 0 <= index && length == len(input) && len(encode) == 4
 //@   at_call unicode/utf8.EncodeRune : arg1 >= 65536 ==> index >= 2 && input[index-2] >= 0xD800 && input[index-2] <= 0xDBFF && input[index-1] >= 0xDC00 && input[index-1] <= 0xDFFF && arg1 == (int32(input[index-2]) - 0xD800) * 0x400 + (int32(input[index-1]) - 0xDC00) + 0x10000
 //@   at_call unicode/utf8.EncodeRune : arg1 < 65536 ==> index >= 1 && arg1 == int32(input[index-1]) && !(input[index-1] >= 0xD800 && input[index-1] <= 0xDFFF)
+
+// [[Put]] (8.12.5): rejected exactly when [[CanPut]] is false (step 1); an accessor's setter
+// is called with the object as this and V as the only argument (step 5); an own data
+// property keeps its attributes and gets V as value through [[DefineOwnProperty]] (step 3);
+// otherwise a new property {V, writable, enumerable, configurable all true} is created
+// (step 6).  [[CanPut]] itself is objectCanPutDetails (contract above).
+//@ func objectPut
+//@   props C07
+//@   nosafety
+//@   requires obj != nil && obj.runtime != nil && jsValue(value)
+//@   abstract_callee objectCanPutDetails, (*object).call
+//@   at_call (*runtime).typeErrorResult : !canPut && arg1 == throw
+//@   at_call (*object).call : canPut && setter != nil && arg0 == setter && arg1.kind == valueObject && is(arg1.value, *object) && arg1.value.(*object) == obj && len(arg2) == 1 && arg2[0] == value
+//@   at_call (*object).defineOwnProperty : canPut && setter == nil && prop != nil && arg0 == obj && arg1 == name && is(arg2.value, Value) && arg2.value.(Value) == value && arg2.mode == prop.mode && arg3 == throw
+//@   at_call (*object).defineProperty : canPut && setter == nil && prop == nil && arg0 == obj && arg1 == name && arg2 == value && arg3 == 0o111 && arg4 == throw
